@@ -15,6 +15,7 @@ type vSrc struct {
 	whole bool // no chunking nondeterminism
 	one   bool // one byte per read
 	eofWith bool // deliver the last bytes together with io.EOF (allowed by the io.Reader contract)
+	ndLeft  int  // nondeterministic reads left (then whole reads); bounds the 3^reads fan-out
 }
 
 func (s *vSrc) Read(p []byte) (int, error) {
@@ -31,7 +32,8 @@ func (s *vSrc) Read(p []byte) (int, error) {
 	}
 	if s.one {
 		n = 1
-	} else if !s.whole && n > 1 {
+	} else if !s.whole && n > 1 && s.ndLeft > 0 {
+		s.ndLeft--
 		k := 3
 		if n == 2 {
 			k = 2
